@@ -35,6 +35,9 @@ from families import c20_hist
 # >>> C20-par (user-defined flat systems that declare default parameters; planning calls with params=: families/c20_par.py)
 from families import c20_par
 # <<< C20-par
+# >>> C20-scale (problems far from unit scaling: long / short horizons against the basis horizon, tiny / huge data: families/c20_scale.py)
+from families import c20_scale
+# <<< C20-scale
 
 TOL = Fraction(1, 10 ** 6)        # regime T (solve / lstsq); observed worst error ~1e-10
 NINTERIOR = 3
@@ -298,6 +301,21 @@ class C20(Family):
         "other values than the dynamics do and no property failure is visible on the case, the trajectory is not "
         "compared with the model's (which is planned for the requested values)"]
     # <<< C20-par
+    # >>> C20-scale
+    rule = rule + (
+        "; scaling part: point_to_point / eval on reachable SISO systems of order 1..3 with the unscaled bases "
+        "PolyFamily(N) / BezierFamily(N) (T = 1) on horizons 3 .. 200, bases rescaled to horizons 50 .. 3600, horizons "
+        "1/8 .. 1/1024, and boundary data of magnitude 1e-14 .. 1e9 in every class (30 % rest to rest), 25 % also "
+        "with a B-spline basis; non-trivial = non-zero boundary data")
+    assumptions = assumptions + [
+        "scaling part: no absolute scale enters a comparison; end points are judged within 1000 eps ||M||_2 ||alpha||_2 "
+        "(residual of a backward-stable least-squares solve of the boundary system M alpha = Z; the unchanged code "
+        "reaches ~1 eps ||M|| ||alpha||) plus 1e-9 sum_j |alpha_j M_kj(t)|, mapped through |Tinv|, |F| of the exact flat "
+        "structure; feasibility within the same evaluation bound propagated through the exact differentiation row; "
+        "guard cond_2(M) <= 1e12 (numpy.linalg.lstsq cuts singular values below ~2e-15 sigma_max; beyond that "
+        "point_to_point warns 'basis too small' and misses the end points - not generated); the model's trajectory "
+        "is compared only when cond_2(M) <= 1e5"]
+    # <<< C20-scale
 
     def __init__(self):
         self._cache = {}
@@ -310,6 +328,9 @@ class C20(Family):
         # >>> C20-par
         self.par = c20_par.Par(self.multi)
         # <<< C20-par
+        # >>> C20-scale
+        self.scale = c20_scale.Scale(self)
+        # <<< C20-scale
 
     # ---- generation -------------------------------------------------------
     def rq(self, rng):
@@ -415,8 +436,11 @@ class C20(Family):
         cases += self.hist.generate(rng, tier)        # after the other streams: those are unchanged per seed
         # <<< C20-hist
         # >>> C20-par
-        cases += self.par.generate(rng, tier)         # last: the earlier streams are unchanged per seed
+        cases += self.par.generate(rng, tier)         # after the streams above: those are unchanged per seed
         # <<< C20-par
+        # >>> C20-scale
+        cases += self.scale.generate(rng, tier)       # last: the earlier streams are unchanged per seed
+        # <<< C20-scale
         return cases
 
     def corpus(self):
@@ -443,6 +467,9 @@ class C20(Family):
         # >>> C20-par
         ] + self.par.corpus() + [
         # <<< C20-par
+        # >>> C20-scale
+        ] + self.scale.corpus() + [
+        # <<< C20-scale
         ]
 
     # ---- execution ----------------------------------------------------------
@@ -464,6 +491,10 @@ class C20(Family):
         if case.get("kind") == "par":
             return self.par.line(case)
         # <<< C20-par
+        # >>> C20-scale
+        if case.get("kind") == "sc":
+            return self.scale.line(case)
+        # <<< C20-scale
         s = case["sys"]
         pre, full = self.sys_prefix(s)
         if not full:
@@ -493,6 +524,10 @@ class C20(Family):
         if case.get("kind") == "par":
             return self.par.impl(case)
         # <<< C20-par
+        # >>> C20-scale
+        if case.get("kind") == "sc":
+            return self.scale.impl(case)
+        # <<< C20-scale
         s = case["sys"]
         n = s["n"]
         out = {}
@@ -587,6 +622,10 @@ class C20(Family):
         if case.get("kind") == "par":
             return self.par.parse_model(case, out)
         # <<< C20-par
+        # >>> C20-scale
+        if case.get("kind") == "sc":
+            return self.scale.parse_model(case, out)
+        # <<< C20-scale
         s = case["sys"]
         n = s["n"]
         if out.startswith("err "):
@@ -650,6 +689,10 @@ class C20(Family):
         if case.get("kind") == "par":
             return self.par.compare(case, impl, model)
         # <<< C20-par
+        # >>> C20-scale
+        if case.get("kind") == "sc":
+            return self.scale.compare(case, impl, model)
+        # <<< C20-scale
         s = case["sys"]
         n = s["n"]
         if "err" in model:
@@ -788,6 +831,10 @@ class C20(Family):
         if case.get("kind") == "par":
             return self.par.nontrivial(case, model)
         # <<< C20-par
+        # >>> C20-scale
+        if case.get("kind") == "sc":
+            return self.scale.nontrivial(case, model)
+        # <<< C20-scale
         s = case["sys"]
         if "err" in model or s["n"] < 2:
             return False
@@ -808,6 +855,10 @@ class C20(Family):
         if case.get("kind") == "par":
             return self.par.stats(case, impl, model)
         # <<< C20-par
+        # >>> C20-scale
+        if case.get("kind") == "sc":
+            return self.scale.stats(case, impl, model)
+        # <<< C20-scale
         s = case["sys"]
         st = {"order": s["n"], "outcome": ("err:" + model["err"]) if "err" in model else "ok"}
         if "err" in model and "err" in impl:
@@ -838,6 +889,11 @@ class C20(Family):
             yield from self.par.shrink(case)
             return
         # <<< C20-par
+        # >>> C20-scale
+        if case.get("kind") == "sc":
+            yield from self.scale.shrink(case)
+            return
+        # <<< C20-scale
         if case.get("p2p"):
             c = dict(case)
             c["p2p"] = None
@@ -890,6 +946,10 @@ class C20(Family):
         if case.get("kind") == "par":
             return self.par.search(rng, case, tier)
         # <<< C20-par
+        # >>> C20-scale
+        if case.get("kind") == "sc":
+            return self.scale.search(rng, case, tier)
+        # <<< C20-scale
         return [self.gen_case(rng, tier) for _ in range(200)]
 
 
